@@ -141,11 +141,16 @@ func NewFunc(f interface{}, opts ...Arg) (*Func, error) {
 		return nil, err
 	}
 
+	// The options are kept for later calls. The list belongs to the caller,
+	// who may reuse it once we return, so we keep a copy.
+	callOpts := make([]Arg, len(opts))
+	copy(callOpts, opts)
+
 	result := &Func{
 		fn:       fv,
 		input:    inTyp,
 		output:   outTyp,
-		callOpts: opts,
+		callOpts: callOpts,
 		name:     args.funcName,
 		once:     args.funcOnce,
 	}
